@@ -26,6 +26,7 @@ func draw(n int64) int64 {
 		return real.Int63n(n)
 	}
 	simrt.Probe("rand_draw")
+	simrt.NoteRand(n)
 	switch simrt.SchedDraw(4) {
 	case 0:
 		return 0
